@@ -102,6 +102,11 @@ func (fr *Frame) callFunc(st *State, fn *ssa.Function, args []Val, bindings []Va
 	if fc := r.eng.contractFor(fn); fc != nil && !(fc.Inline && fn.Blocks != nil) {
 		if fc.Extern {
 			r.externs[fc.Key] = true
+		} else {
+			if r.usedContracts == nil {
+				r.usedContracts = map[*FuncContract]bool{}
+			}
+			r.usedContracts[fc] = true
 		}
 		return fr.callContract(st, fn.Signature, fn, fc, args, pos, name)
 	}
